@@ -2,6 +2,7 @@ package props
 
 import (
 	"bytes"
+	"context"
 	"errors"
 	"fmt"
 	"os"
@@ -344,6 +345,109 @@ func c12Seq(tier string, seed int64, idx int, scratch string) rt.CaseResult {
 			return c
 		}
 		c.AddDistinct(fmt.Sprintf("%s/%s/write-error/k=%d", modeName(mode), shapeOf(seq), k))
+	}
+	// the context handed to Create is cancelled (or its deadline passes) between Create and Close,
+	// after some of the content has been written: whatever Close then returns, an error means the
+	// key is unchanged and nil means the whole content is there
+	for i := 0; i < 6; i++ {
+		rt.Beat()
+		ctx, cancel := context.WithCancel(ctxBg)
+		key := "victim"
+		label := "context-done-before-close"
+		f, err := env.DB.Create(ctx, key)
+		c.Evals++
+		if err != nil {
+			cancel()
+			c.Violate("create-failed class="+string(seqrun.Class(err)), err.Error(), map[string]any{"variant": label})
+			return c
+		}
+		part1 := seqrun.Content(fmt.Sprintf("c%d-cx%d-a", idx, i), []int{10, 3000, 70000}[i%3])
+		part2 := seqrun.Content(fmt.Sprintf("c%d-cx%d-b", idx, i), []int{1, 40000}[i%2])
+		_, werr := f.Write(part1)
+		if i%2 == 0 {
+			time.Sleep(2 * time.Millisecond) // the storing side has consumed the first part
+		}
+		cancel()
+		time.Sleep(time.Duration(i%3) * time.Millisecond)
+		if werr == nil {
+			_, werr = f.Write(part2)
+		}
+		cerr := f.Close()
+		if werr == nil {
+			werr = cerr
+		}
+		replay := map[string]any{"variant": label, "mode": modeName(mode), "first_part": len(part1), "second_part": len(part2), "result": fmt.Sprint(werr)}
+		for probe := 0; probe < 3; probe++ {
+			b, gerr := env.DB.Get(ctxBg, key)
+			switch {
+			case werr != nil && (gerr != nil || !bytes.Equal(b, prev)):
+				c.Violate("failed-create-changed-key variant=context-done-before-close", fmt.Sprintf("Write/Close failed (%v) after the context of Create had been cancelled, and the key now reads %s (%v); before it read %s", werr, seqrun.Describe(b), gerr, seqrun.Describe(prev)), replay)
+				return c
+			case werr == nil && (gerr != nil || !bytes.Equal(b, append(append([]byte(nil), part1...), part2...))):
+				c.Violate("stored-content-differs mode="+modeName(mode)+" variant=context-done-before-close", fmt.Sprintf("Close returned nil but Get returns %s (%v)", seqrun.Describe(b), gerr), replay)
+				return c
+			}
+			time.Sleep(3 * time.Millisecond)
+		}
+		if werr == nil {
+			prev = append(append([]byte(nil), part1...), part2...)
+		}
+		c.AddDistinct(fmt.Sprintf("%s/context-done-before-close/%d/ok=%v", modeName(mode), i%6, werr == nil))
+	}
+	// two (three) files open at the same time in one goroutine, written alternately, closed in
+	// creation order, in reverse order, and with a Set of another key in between
+	for i := 0; i < 6; i++ {
+		rt.Beat()
+		nf := 2 + i%2
+		var files []fs_db.File
+		var want [][]byte
+		for j := 0; j < nf; j++ {
+			f, err := env.DB.Create(ctxBg, fmt.Sprintf("multi%d", j))
+			if err != nil {
+				c.Violate("create-failed class="+string(seqrun.Class(err)), err.Error(), map[string]any{"variant": "several-files-open"})
+				return c
+			}
+			files = append(files, f)
+			want = append(want, nil)
+		}
+		c.Evals++
+		var werr error
+		for round := 0; round < 3 && werr == nil; round++ {
+			for j, f := range files {
+				b := seqrun.Content(fmt.Sprintf("c%d-m%d-%d-%d", idx, i, j, round), []int{5, 2048, 33000}[(round+j)%3])
+				if _, werr = f.Write(b); werr != nil {
+					break
+				}
+				want[j] = append(want[j], b...)
+			}
+			if round == 1 && i%3 == 0 {
+				if err := env.DB.Set(ctxBg, "multi-set", []byte("x")); err != nil {
+					werr = err
+				}
+			}
+		}
+		order := []int{0, 1, 2}[:nf]
+		if i%2 == 1 {
+			order = []int{2, 1, 0}[3-nf:]
+		}
+		for _, j := range order {
+			if cerr := files[j].Close(); werr == nil {
+				werr = cerr
+			}
+		}
+		replay := map[string]any{"variant": "several-files-open", "mode": modeName(mode), "files": nf, "close_order": order}
+		if werr != nil {
+			c.Violate("create-write-close-error class="+string(seqrun.Class(werr))+" variant=several-files-open", fmt.Sprintf("%d files open at once: %v", nf, werr), replay)
+			return c
+		}
+		for j := range files {
+			b, gerr := env.DB.Get(ctxBg, fmt.Sprintf("multi%d", j))
+			if gerr != nil || !bytes.Equal(b, want[j]) {
+				c.Violate("stored-content-differs mode="+modeName(mode)+" variant=several-files-open", fmt.Sprintf("file %d of %d that were open at once: Get returns %s (%v), written %s", j, nf, seqrun.Describe(b), gerr, seqrun.Describe(want[j])), replay)
+				return c
+			}
+		}
+		c.AddDistinct(fmt.Sprintf("%s/several-files-open/%d/order=%v", modeName(mode), nf, order))
 	}
 	if idx == 0 {
 		c.Sample = map[string]any{"sequences_in_this_case": len(mine), "first": mine[:min(4, len(mine))]}
